@@ -166,7 +166,7 @@ def gen_inheritance_cases(rnd, n):
                 q = f'select ({u}).name'
             else:
                 q = f'select count(distinct ({u})) = count({u})'
-            out.append({'sdl': ' '.join(sdl), 'q': q, 'dbs': [db]})
+            out.append({'sdl': ' '.join(sdl), 'q': q, 'dbs': [db], '_meta': {'operands': k, 'name_path': '.name' in q and 'filter' not in q}})
     return out
 
 
@@ -480,7 +480,7 @@ def run(tier):
     inh = gen_inheritance_cases(lib.rng('C06inherit'), 12 if not thorough else 60)
     for t in inh:
         text_cases.append(json.dumps(t))
-        text_meta.append(('inherit', None))
+        text_meta.append(('inherit', t['_meta']))
     text_res = run_impl(text_cases, 'text') if text_cases else []
     text_hits = [(j, r) for j, r in enumerate(text_res) if r.get('mon')]
     text_stats = {'cases': len(text_cases), 'compiled': sum(1 for r in text_res if not r.get('err')),
@@ -622,6 +622,15 @@ def run(tier):
         if fid and fid in known:
             known_once(fid, known[fid]['what'] + f' (replayed: `{r["q"]}`)')
             continue
+        if meta[0] == 'inherit':
+            # two-operand unions of plain types must be judged correctly; the known over-claims are
+            #   F9: a union of >= 3 operands (its left operand has a union TYPE, deemed unrelated to everything)
+            #   F4: the exclusive property `.name` of a union that contains duplicates
+            ids = (['C06-F4'] if meta[1]['name_path'] else []) + (['C06-F9'] if meta[1]['operands'] >= 3 else [])
+            if ids and all(i in known for i in ids):
+                for i in ids:
+                    known_once(i, known[i]['what'] + f' (inheritance stream: `{r["q"]}`)')
+                continue
         if meta[0] == 'liberal' and 'C06-F10' in known and repeated_root(meta[1][1]):
             # the same (not detached) type root occurs twice: it is factored, the statement is
             # evaluated once per object, a link path from it is still classified UNIQUE
